@@ -66,7 +66,7 @@ def gen_cases(tier, seed):
             if ms["family"] == "MERTON":
                 ms["params"]["mu_j"] = min(ms["params"]["mu_j"], 0.05)
                 ms["params"]["sigma_j"] = max(ms["params"]["sigma_j"], 0.08)
-        ctor = ["fixed", "geometric_bounds", "credit"][j % 3]
+        ctor = ["fixed", "geometric_bounds", "credit_asym"][j % 3]      # (the symmetric credit grid has 11 points per axis: too many kernels)
         g = G.gen_grid_spec(rng, ctor, dim)
         if ctor == "fixed":
             g["n"] = 5 if dim == 3 else int(rng.choice([5, 7]))
@@ -359,7 +359,23 @@ def _replay_1d(R, cp, kernel, axis_f, o_f, src, label, ctor, level, method, mode
             continue  # only terminal sums are returned: the replay needs the whole path
         # replay: fine increments from the fine jump path, coupling uniforms = the size-1 draws in order
         if mode == "maxstep":
-            continue  # inserted points repeat values: replay is done on the other two modes
+            # times inserted to cap the step repeat the preceding values of BOTH components; at a jump time the coarse jump is the fine
+            # jump itself or a state adjacent to it (the exact image is replayed in the jump-time mode)
+            dfs, dcs = np.diff(jf), np.diff(jc)
+            R.hit("max_step_coupled_steps_checked", dfs.size)
+            for i_step in range(dfs.size):
+                if dfs[i_step] == 0.0:
+                    bad_step = dcs[i_step] != 0.0
+                else:
+                    j0 = int(np.argmin(np.abs(axis_f - dfs[i_step])))
+                    if abs(axis_f[j0] - dfs[i_step]) > 1e-9 * (1 + abs(dfs[i_step])):
+                        continue
+                    bad_step = float(np.min(np.abs(axis_f[max(j0 - 1, 0):j0 + 2] - dcs[i_step]))) > 1e-9 * (1 + abs(dcs[i_step]))
+                if bad_step:
+                    R.violation("1d-coupled-maxstep-coarse-step-not-the-image-of-the-fine-step", f"{label}/{ctor} level {level} method {method}: at time index "
+                                f"{i_step + 1} the fine component moves by {float(dfs[i_step])!r} and the coarse one by {float(dcs[i_step])!r}", wit)
+                    break
+            continue
         vals = jf[1:-1]
         incs_val = np.diff(np.concatenate(([0.0], vals)))
         index = {float(v): i for i, v in enumerate(axis_f)}
